@@ -204,6 +204,13 @@ inline Outcome compare_session(const Case& c, Violations& V, Stats& S, const cha
     bool can_check_taproot = c.tx.vin.size() == 1;   // the tool gets one funding tx: BIP341 digests need all prevouts
     auto step_impl = [&]() -> std::string { S.steps++; if (inst.step()) return ""; if (inst.exception_string != "") return "UNKNOWN_ERROR"; return impl::err_name(*env.serror); };
     int stepno = 0;
+    // a step that has failed is attempted again: it must fail again (the session stays where it was - a refusal that lets the NEXT step
+    // through, e.g. because the failing step released or advanced something, turns an invalid spend into a valid-looking session)
+    auto refails = [&](const std::string& where, const std::string& first) {
+        std::string again = step_impl();
+        if (again == "") { rep("failed-step-then-step-succeeds:" + where, "a step failed (" + first + "); attempted again it succeeds - the session walks past its own refusal"); return false; }
+        return true;
+    };
     // commitment micro-steps
     for (int i = 0; i < P.commit_steps; i++, stepno++) {
         bool last = i == P.commit_steps - 1;
@@ -212,7 +219,7 @@ inline Outcome compare_session(const Case& c, Violations& V, Stats& S, const cha
         if (e != "" && i == 0 && P.scripts[0].empty() && !(last && !P.commit_ok)) { rep("commitment:skipped-for-empty-script", "the session is 'done' before the commitment check because the committed script is empty; the commitment is never verified"); return O; }
         if (e != "" && !last) { rep("commitment:path-step-fails", "a path-folding micro-step failed (" + e + ") at micro-step " + std::to_string(i)); return O; }
         if (last && (e == "") != expect_ok) { rep(std::string("commitment:verdict:") + (P.commit_ok ? "valid-rejected" : "invalid-accepted"), "taproot commitment " + std::string(P.commit_ok ? "is valid but the check failed" : "is invalid but the check succeeded")); return O; }
-        if (e != "") { O.err = "commitment"; O.fail_step = stepno; S.invalid++; S.outcomes["commitment-failed"]++; if (have_rv && rv == Err::OK) rep("invalid-verdict-for-valid-spend:" + P.type, "commitment failed on a valid spend"); return O; }
+        if (e != "") { if (!refails("commitment", e)) return O; O.err = "commitment"; O.fail_step = stepno; S.invalid++; S.outcomes["commitment-failed"]++; if (have_rv && rv == Err::OK) rep("invalid-verdict-for-valid-spend:" + P.type, "commitment failed on a valid spend"); return O; }
         if (!last) {
             if (!env.tce) { rep("commitment:ended-early", "commitment phase ended before the path was consumed"); return O; }
             bytes k(env.tce->m_k.begin(), env.tce->m_k.end());
@@ -249,6 +256,7 @@ inline Outcome compare_session(const Case& c, Violations& V, Stats& S, const cha
             std::string e = step_impl(); stepno++;
             if (re != Err::OK) {
                 if (e == "") { rep(std::string("step-outcome:switch;ref=") + err_name(re) + ";impl=OK;" + c.klass, "script switch must fail with " + std::string(err_name(re))); return O; }
+                if (!refails("switch", e)) return O;
                 impl_failed = true;
                 break;
             }
@@ -299,6 +307,7 @@ inline Outcome compare_session(const Case& c, Violations& V, Stats& S, const cha
                 bool same = e == err_name(re);
                 if (P.sv == SigVer::TAPROOT && sigop && e != "") same = true;  // key path: the tool has no error sink (accept/reject only)
                 if (!same) { rep(std::string("step-outcome:") + opk + ";ref=" + err_name(re) + ";impl=" + (e == "" ? "OK" : e) + ";" + c.klass, "op #" + std::to_string(opi) + " of phase " + std::to_string(ph) + ": reference " + err_name(re) + ", debugger " + (e == "" ? "OK" : e)); return O; }
+                if (!refails("operation", e)) return O;
                 impl_failed = true;
                 break;
             }
